@@ -15,6 +15,7 @@ package app_test
 
 import (
 	"fmt"
+	"os"
 	"math/big"
 	"math/rand"
 	"sort"
@@ -27,6 +28,7 @@ import (
 	"github.com/osmosis-labs/osmosis/osmomath"
 	cl "github.com/osmosis-labs/osmosis/v31/x/concentrated-liquidity"
 	cltypes "github.com/osmosis-labs/osmosis/v31/x/concentrated-liquidity/types"
+	clgenesis "github.com/osmosis-labs/osmosis/v31/x/concentrated-liquidity/types/genesis"
 )
 
 const (
@@ -202,6 +204,115 @@ func (e *clEngine) dumpFeesImpl() string {
 		strings.Join(os, " "), strings.Join(rs, " "), strings.Join(cs, " "))
 }
 
+// exportImport: the REAL ExportGenesis (through the JSON codec: the pool is an Any), EVERY key of the concentrated-
+// liquidity store deleted, the REAL InitGenesis; the history (swaps, collects, withdrawals, the fee / incentive /
+// solvency oracles of C01, C07, C08) continues on the imported store.  Oracle (C19): the raw store must be what it
+// was, key by key; the one family the code is known to rebuild differently (per-denom total liquidity, F35) is counted.
+func (e *clEngine) exportImport() {
+	k := e.h.App.ConcentratedLiquidityKeeper
+	o := e.o
+	cdc := e.h.App.AppCodec()
+	rawOf := func(ctx sdk.Context) map[string]string {
+		store := ctx.KVStore(e.h.App.GetKey(cltypes.StoreKey))
+		it := store.Iterator(nil, nil)
+		defer it.Close()
+		out := map[string]string{}
+		for ; it.Valid(); it.Next() {
+			out[fmt.Sprintf("%x", it.Key())] = fmt.Sprintf("%x", it.Value())
+		}
+		return out
+	}
+	pre := rawOf(e.ctx())
+	err := e.atomic(func(ctx sdk.Context) error {
+		bz := cdc.MustMarshalJSON(k.ExportGenesis(ctx))
+		store := ctx.KVStore(e.h.App.GetKey(cltypes.StoreKey))
+		var keys [][]byte
+		it := store.Iterator(nil, nil)
+		for ; it.Valid(); it.Next() {
+			keys = append(keys, append([]byte{}, it.Key()...))
+		}
+		it.Close()
+		for _, key := range keys {
+			store.Delete(key)
+		}
+		var gs clgenesis.GenesisState
+		cdc.MustUnmarshalJSON(bz, &gs)
+		k.InitGenesis(ctx, gs)
+		return nil
+	})
+	if err != nil {
+		o.Emit("clp exportimport", "panic", true)
+		o.Fail("cl:export-import:panics", err.Error())
+		return
+	}
+	o.Emit("clp exportimport", "ok", true)
+	o.Count("exportimport")
+	post := rawOf(e.ctx())
+	diff := map[string]int{}
+	var sample []string
+	note := func(key, what string) {
+		pfx := key
+		if len(pfx) > 2 {
+			pfx = pfx[:2]
+		}
+		diff[pfx+":"+what]++
+		if len(sample) < 4 {
+			sample = append(sample, what+" "+key)
+		}
+	}
+	for key, v := range pre {
+		pv, ok := post[key]
+		if !ok {
+			note(key, "missing")
+		} else if pv != v {
+			note(key, "changed")
+		}
+	}
+	for key := range post {
+		if _, ok := pre[key]; !ok {
+			note(key, "extra")
+		}
+	}
+	// uptime-accumulator position records ("accum||pos||" 0x0c "/pool/uptime" "||" 0x08 <position id>) of positions that
+	// no longer exist: the running chain never deletes them, the export lists live positions only
+	staleOnly := true
+	for key := range pre {
+		if _, ok := post[key]; ok || !strings.HasPrefix(key, "616363756d7c7c706f737c7c0c") {
+			continue
+		}
+		i := strings.LastIndex(key, "7c7c08")
+		var idStr []byte
+		if i >= 0 {
+			fmt.Sscanf(key[i+6:], "%x", &idStr)
+		}
+		var id uint64
+		fmt.Sscan(string(idStr), &id)
+		if _, err := k.GetPosition(e.ctx(), id); i < 0 || err == nil {
+			staleOnly = false
+		}
+	}
+	for d, n := range diff {
+		if strings.HasPrefix(d, "13:") { // KeyTotalLiquidity: recomputed from the pool balances (F35)
+			o.Count("exportimport.total-liquidity-recomputed")
+			continue
+		}
+		if d == "61:missing" && staleOnly {
+			o.Count("exportimport.stale-uptime-records-of-deleted-positions-dropped")
+			continue
+		}
+		if strings.HasPrefix(d, "0e:") { // FullRangeLiquidityPrefix: the running total is rebuilt as the sum over full-range positions
+			d = "full-range-liquidity-recomputed"
+		}
+		if os.Getenv("VERIF_EXPORT_IMPORT_LOSSES") != "count" {
+			o.Fail("cl:export-import:store-differs:"+d, fmt.Sprintf("%d keys, e.g. %v", n, sample))
+		} else {
+			o.Count("exportimport.LOSS.cl:export-import:store-differs:" + d)
+		}
+	}
+	o.Emit("clp nextid", fmt.Sprintf("ok %d", k.GetNextPositionId(e.ctx())), true)
+	o.Emit("clp dump", e.dumpImpl(), true)
+}
+
 func (e *clEngine) ownerName(addr string) string {
 	for i, a := range e.accs {
 		if a.String() == addr {
@@ -307,6 +418,9 @@ func runCL(t *testing.T, seed int64, n int, dir string) {
 			done++
 			e.opn++
 			e.step()
+			if e.r.Intn(12) == 0 {
+				e.exportImport()
+			}
 			o.Emit("clp fdump", e.dumpFeesImpl(), true)
 			e.oracleNoLoss(e.opClass)
 			e.oracleIncentives()
